@@ -487,37 +487,34 @@ theorem cont_step_retainMut {kind : Kind} {s : Store P} (h : s.WF) (f : Item →
     obtain ⟨s', e1, e2, _, e3, e4, _⟩ := DQ.retainMut_safe h f hf
     exact ⟨s', by simp [step, e1, bind, Except.bind, pure, Except.pure], e2, e3, e4⟩
 
-/-- `Extend::extend`, every `size_hint` lower bound -/
-theorem cont_step_extend {kind : Kind} {s : Store P} (h : s.WF) (lo : Nat) (xs : Array (Item × P)) :
+/-- `Extend::extend`, every `size_hint` lower bound below the capacity limit (every legal one) -/
+theorem cont_step_extend {kind : Kind} {s : Store P} (h : s.WF) (lo : Nat) (xs : Array (Item × P))
+    (hlo : lo < capLimit) :
     ∃ s', step ⟨kind, s⟩ (.extend lo xs) = .ok (⟨kind, s'⟩, .unit) ∧ s'.WF ∧
       s'.abs = xs.foldl Store.absStep s.abs := by
   cases kind with
   | pq =>
-    obtain ⟨s', e1, e2, e3⟩ := MaxQ.extend_safe h lo xs
+    obtain ⟨s', e1, e2, e3⟩ := MaxQ.extend_safe h lo xs hlo
     exact ⟨s', by simp [step, e1, bind, Except.bind, pure, Except.pure], e2, e3⟩
   | dpq =>
-    obtain ⟨s', e1, e2, e3⟩ := DQ.extend_safe h lo xs
+    obtain ⟨s', e1, e2, e3⟩ := DQ.extend_safe h lo xs hlo
     exact ⟨s', by simp [step, e1, bind, Except.bind, pure, Except.pure], e2, e3⟩
 
-/-- `append(other)`, `other` built from the pair vector `xs`: the union; on a clash the entry of the LARGER queue
-stays (the two queues are swapped first when `other` is strictly larger) -/
-theorem cont_step_append {kind : Kind} {s : Store P} (h : s.WF) (xs : Array (Item × P)) :
-    ∃ s', step ⟨kind, s⟩ (.append xs) = .ok (⟨kind, s'⟩, .unit) ∧ s'.WF ∧
-      ∀ k, s'.abs k =
-        if (xs.toList.map (·.1.key)).eraseDups.length > s.size
-        then (xs.toList.find? (fun e => e.1.key == k)).or (s.abs k)
-        else (s.abs k).or (xs.toList.find? (fun e => e.1.key == k)) := by
-  have hl : ∀ k, (Store.fromVec xs).abs k = xs.toList.find? (fun e => e.1.key == k) := fun k => lookup_fromVec xs k
-  have hsz : (Store.fromVec xs).size = (xs.toList.map (·.1.key)).eraseDups.length := size_fromVec xs
+/-- `append(&mut other)` for ANY well-formed other queue `o` of the same kind: the union; on a clash the entry of the
+LARGER queue stays (the two queues are swapped first when `other` is strictly larger); `other` is left empty (its
+length, its map and both its index tables have length `0`: it stays a usable, empty queue) -/
+theorem cont_step_append {kind : Kind} {s o : Store P} (h : s.WF) (ho : o.WF) :
+    ∃ s', step ⟨kind, s⟩ (.append o) = .ok (⟨kind, s'⟩, .other 0 0 0 0) ∧ s'.WF ∧
+      ∀ k, s'.abs k = if o.size > s.size then (o.abs k).or (s.abs k) else (s.abs k).or (o.abs k) := by
   cases kind with
   | pq =>
-    obtain ⟨s', o', e1, e2, _, _, _, _, _, e3⟩ := MaxQ.append_safe h (wf_fromVec xs)
-    refine ⟨s', by simp [step, e1, bind, Except.bind, pure, Except.pure], e2, fun k => ?_⟩
-    rw [e3 k, hl k, hsz]
+    obtain ⟨s', o', e1, e2, _, e5, e6, e7, e8, e3⟩ := MaxQ.append_safe h ho
+    exact ⟨s', by simp [step, e1, e5, e6, e7, e8, bind, Except.bind, pure, Except.pure], e2, e3⟩
   | dpq =>
-    obtain ⟨s', o', e1, e2, _, _, _, _, _, e3⟩ := DQ.append_safe h (wf_fromVec xs)
-    refine ⟨s', by simp [step, e1, bind, Except.bind, pure, Except.pure], e2, fun k => ?_⟩
-    rw [e3 k, hl k, hsz]
+    obtain ⟨s', o', e1, e2, _, e4, _, e6, _, e3⟩ := DQ.append_safe h ho
+    have h1 := e4.map_size; have h2 := e4.heap_size; have h3 := e4.qp_size
+    rw [e6] at h1 h2 h3
+    exact ⟨s', by simp [step, e1, e6, h1, h2, h3, bind, Except.bind, pure, Except.pure], e2, e3⟩
 
 /-- `From<Vec>`: the FIRST pair of each key -/
 theorem cont_step_fromVec {kind : Kind} (s : Store P) (xs : Array (Item × P)) :
@@ -531,28 +528,28 @@ theorem cont_step_fromVec {kind : Kind} (s : Store P) (xs : Array (Item × P)) :
     obtain ⟨s', e1, e2, _, e3, _⟩ := DQ.fromVec_safe xs
     exact ⟨s', by simp [step, e1, bind, Except.bind, pure, Except.pure], e2, e3⟩
 
-/-- `FromIterator`: the LAST pair of each key -/
-theorem cont_step_fromIter {kind : Kind} (s : Store P) (xs : Array (Item × P)) :
-    ∃ s', step ⟨kind, s⟩ (.fromIter xs) = .ok (⟨kind, s'⟩, .unit) ∧ s'.WF ∧
+/-- `FromIterator` (every `size_hint` lower bound below the capacity limit): the LAST pair of each key -/
+theorem cont_step_fromIter {kind : Kind} (s : Store P) (lo : Nat) (xs : Array (Item × P)) (hlo : lo < capLimit) :
+    ∃ s', step ⟨kind, s⟩ (.fromIter lo xs) = .ok (⟨kind, s'⟩, .unit) ∧ s'.WF ∧
       ∀ k, s'.abs k = xs.toList.reverse.find? (fun e => e.1.key == k) := by
   cases kind with
   | pq =>
-    obtain ⟨s', e1, e2, e3⟩ := MaxQ.fromIter_safe xs
+    obtain ⟨s', e1, e2, e3⟩ := MaxQ.fromIter_safe lo xs hlo
     exact ⟨s', by simp [step, e1, bind, Except.bind, pure, Except.pure], e2, e3⟩
   | dpq =>
-    obtain ⟨s', e1, e2, _, e3, _⟩ := DQ.fromIter_safe xs
+    obtain ⟨s', e1, e2, _, e3, _⟩ := DQ.fromIter_safe lo xs hlo
     exact ⟨s', by simp [step, e1, bind, Except.bind, pure, Except.pure], e2, e3⟩
 
-/-- `Deserialize`: item of the FIRST pair, priority of the LAST pair of each key -/
-theorem cont_step_deserialize {kind : Kind} (s : Store P) (xs : Array (Item × P)) :
-    ∃ s', step ⟨kind, s⟩ (.deserialize xs) = .ok (⟨kind, s'⟩, .unit) ∧ s'.WF ∧
+/-- `Deserialize`, every announced length: item of the FIRST pair, priority of the LAST pair of each key -/
+theorem cont_step_deserialize {kind : Kind} (s : Store P) (hint : Option Nat) (xs : Array (Item × P)) :
+    ∃ s', step ⟨kind, s⟩ (.deserialize hint xs) = .ok (⟨kind, s'⟩, .unit) ∧ s'.WF ∧
       s'.abs = xs.foldl Store.absStep (fun _ => none) := by
   cases kind with
   | pq =>
-    obtain ⟨s', e1, e2, e3, _⟩ := MaxQ.deserialize_safe xs
+    obtain ⟨s', e1, e2, e3, _⟩ := MaxQ.deserialize_safe hint xs
     exact ⟨s', by simp [step, e1, bind, Except.bind, pure, Except.pure], e2, e3⟩
   | dpq =>
-    obtain ⟨s', e1, e2, _, e3, _⟩ := DQ.deserialize_safe xs
+    obtain ⟨s', e1, e2, _, e3, _⟩ := DQ.deserialize_safe hint xs
     exact ⟨s', by simp [step, e1, bind, Except.bind, pure, Except.pure], e2, e3⟩
 
 /-- the other kind -/
@@ -745,14 +742,12 @@ def specStep (kind : Kind) (a : AbsQ P) (op : Op P) (o : Out P) (a' : AbsQ P) : 
   | .retainMut f => o = .unit ∧ a' = (fun k => (a k).bind (IMap.retainStep f))
   | .iterMut _ prog => specIterMut prog a o a'
   | .extend _ xs => o = .unit ∧ a' = xs.foldl Store.absStep a
-  | .append xs =>
-    o = .unit ∧ ∀ n, cont_absCard a n → ∀ k, a' k =
-      if (xs.toList.map (·.1.key)).eraseDups.length > n
-      then (xs.toList.find? (fun e => e.1.key == k)).or (a k)
-      else (a k).or (xs.toList.find? (fun e => e.1.key == k))
+  | .append oth =>
+    o = .other 0 0 0 0 ∧ ∀ n, cont_absCard a n → ∀ k, a' k =
+      if oth.size > n then (oth.abs k).or (a k) else (a k).or (oth.abs k)
   | .fromVec xs => o = .unit ∧ ∀ k, a' k = xs.toList.find? (fun e => e.1.key == k)
-  | .fromIter xs => o = .unit ∧ ∀ k, a' k = xs.toList.reverse.find? (fun e => e.1.key == k)
-  | .deserialize xs => o = .unit ∧ a' = xs.foldl Store.absStep (fun _ => none)
+  | .fromIter _ xs => o = .unit ∧ ∀ k, a' k = xs.toList.reverse.find? (fun e => e.1.key == k)
+  | .deserialize _ xs => o = .unit ∧ a' = xs.foldl Store.absStep (fun _ => none)
   | .convert => o = .unit ∧ a' = a
   | .clear => o = .unit ∧ a' = (fun _ => none)
   | .drain =>
@@ -880,21 +875,21 @@ theorem cont_step_total {kind : Kind} {s : Store P} (h : s.WF) (op : Op P) (hl :
     obtain ⟨a1, a2, a3, a4⟩ := cont_iterMut_abs h e4
     exact ⟨s', _, e1, e2, outs, rfl, e3, a1, a2, a3, a4⟩
   | extend lo xs =>
-    obtain ⟨s', e1, e2, e3⟩ := cont_step_extend (kind := kind) h lo xs
+    obtain ⟨s', e1, e2, e3⟩ := cont_step_extend (kind := kind) h lo xs (Nat.lt_of_le_of_lt hl.1 hl.2)
     exact ⟨s', _, e1, e2, rfl, e3⟩
-  | append xs =>
-    obtain ⟨s', e1, e2, e3⟩ := cont_step_append (kind := kind) h xs
+  | append oth =>
+    obtain ⟨s', e1, e2, e3⟩ := cont_step_append (kind := kind) h (hl : oth.WF)
     refine ⟨s', _, e1, e2, rfl, fun n hn k => ?_⟩
     rw [cont_absCard_unique hn (cont_absCard_of_WF h)]
     exact e3 k
   | fromVec xs =>
     obtain ⟨s', e1, e2, e3⟩ := cont_step_fromVec (kind := kind) s xs
     exact ⟨s', _, e1, e2, rfl, e3⟩
-  | fromIter xs =>
-    obtain ⟨s', e1, e2, e3⟩ := cont_step_fromIter (kind := kind) s xs
+  | fromIter lo xs =>
+    obtain ⟨s', e1, e2, e3⟩ := cont_step_fromIter (kind := kind) s lo xs (Nat.lt_of_le_of_lt hl.1 hl.2)
     exact ⟨s', _, e1, e2, rfl, e3⟩
-  | deserialize xs =>
-    obtain ⟨s', e1, e2, e3⟩ := cont_step_deserialize (kind := kind) s xs
+  | deserialize hint xs =>
+    obtain ⟨s', e1, e2, e3⟩ := cont_step_deserialize (kind := kind) s hint xs
     exact ⟨s', _, e1, e2, rfl, e3⟩
   | convert =>
     obtain ⟨s', e1, e2, e3, _⟩ := cont_step_convert (kind := kind) h
@@ -1059,8 +1054,8 @@ def cont_preservesItem (k : Nat) : Op P → Prop
   | .peekFrontMut w | .peekBackMut w => ∀ it, it.key = k → w it = it
   | .popFrontIf f | .popBackIf f | .retainMut f => ∀ it p, it.key = k → (f it p).2.1 = it
   | .iterMut _ prog => ∀ cw ∈ prog, cw.2.payload = none
-  | .append xs => ∀ e ∈ xs.toList, e.1.key ≠ k
-  | .fromVec _ | .fromIter _ | .deserialize _ => False
+  | .append o => o.abs k = none
+  | .fromVec _ | .fromIter _ _ | .deserialize _ _ => False
   | _ => True
 
 theorem cont_absPush_item {f : AbsQ P} {it : Item} {p : P} {k : Nat} {it0 : Item} {p0 : P} (ha : f k = some (it0, p0)) :
@@ -1225,16 +1220,16 @@ theorem cont_spec_item_persists {kind : Kind} {a a' : AbsQ P} {op : Op P} {o : O
   | extend lo xs =>
     rw [hs.2, ← Array.foldl_toList]
     exact .inr (cont_foldl_absStep_item xs.toList ha)
-  | append xs =>
+  | append oth =>
     obtain ⟨n, hn⟩ := hc
-    rw [hs.2 n hn k, cont_find?_none_of_forall hp]
+    rw [hs.2 n hn k, (hp : oth.abs k = none)]
     refine .inr ⟨p0, ?_⟩
     split
     · rw [Option.none_or]; exact ha
     · rw [Option.or_none]; exact ha
   | fromVec xs => exact absurd hp id
-  | fromIter xs => exact absurd hp id
-  | deserialize xs => exact absurd hp id
+  | fromIter lo xs => exact absurd hp id
+  | deserialize hint xs => exact absurd hp id
   | convert => rw [hs.2]; exact .inr ⟨p0, ha⟩
   | clear => rw [hs.2]; exact .inl rfl
   | drain =>
